@@ -14,10 +14,17 @@ import OttoVerif.C17.Spec
 namespace OttoVerif.C17.Driver
 open OttoVerif.Proto OttoVerif.C17
 
+/-- linear-time hex decoding (Proto.bytes? is quadratic in the length: fine for names, not for sources) -/
+def unhexGo : List Char → ByteArray → Option ByteArray
+  | [], acc => some acc
+  | [_], _ => none
+  | a :: b :: rest, acc => match hexDigit? a, hexDigit? b with
+    | some x, some y => unhexGo rest (acc.push (UInt8.ofNat (x * 16 + y)))
+    | _, _ => none
+
 def unhex (s : String) : Option String :=
-  if s.isEmpty then some "" else
-  match bytes? s with
-  | some bs => String.fromUTF8? (ByteArray.mk (bs.map (fun b => UInt8.ofNat b)).toArray)
+  match unhexGo s.toList ByteArray.empty with
+  | some bs => String.fromUTF8? bs
   | none => none
 
 def ref? (s : String) : Option (Option Addr) :=
